@@ -70,6 +70,16 @@ def gen_cases(tier, seed):
                           "slice_rel": r % 3,   # 0: fewer than, 1: equal to, 2: not a multiple
                           "cli": storage == "sharded" or rnd.random() < 0.05,
                           "vseed": rnd.randrange(2 ** 32)})
+    # directed: 16-bit stacks in which some sections were saved as 8-bit files, and stacks
+    # whose directories differ in pixel depth (the generator below keys both on vseed % 3)
+    for k, code in enumerate(rnd.sample(CODES, 12)):
+        cases.append({"code": code, "insize": [rnd.randint(2, 6), rnd.randint(2, 6),
+                                               rnd.randint(3, 7)],
+                      "chunk": [rnd.choice([2, 3, 4]) for _ in range(3)],
+                      "channels": "1" if k < 8 else "2", "naming": "padded",
+                      "dtype": "uint16", "fmt": rnd.choice(["png", "tif"]),
+                      "storage": rnd.choice(["flat", "gzip"]), "slice_rel": 2, "cli": False,
+                      "vseed": 3 * rnd.randrange(2 ** 30) + (0 if k < 8 else 1)})
     # directed: long stacks (more than 256 slices of tiny images), several slice groups
     for code in rnd.sample(CODES, 6 if tier == "quick" else 24):
         cases.append({"code": code, "insize": [3, 2, 300], "chunk": [64, 64, 64],
